@@ -178,7 +178,7 @@ def check(run, replay):
         fresh, _, _ = C.cppcheck(sc, FILES, OPTS, builddir=False, jobs=1)
         configs = [(init, jobs, flush) for init in ("empty", "old") for jobs in (1, 2) for flush in (False, True)]
         if quick:
-            configs = [("empty", 1, True), ("old", 1, False), ("old", 2, True)]
+            configs = [("empty", 1, True), ("old", 2, False)]
         for init, jobs, flush in configs:
             k = 0
             while True:
@@ -214,7 +214,7 @@ def check(run, replay):
                     break
             run.extra.setdefault("crash_points", {})["%s,j%d,%s" % (init, jobs, "flush" if flush else "noflush")] = k - 1
         # arbitrary cut points: truncate cache files of a complete build dir
-        ntr = 16 if quick else 400
+        ntr = 10 if quick else 400
         for t in range(ntr):
             sc.reset_bd()
             C.cppcheck(sc, FILES, OPTS, builddir=True, jobs=1)
